@@ -270,7 +270,7 @@ impl<'p> Gen<'p> {
         let tx = self.next_tx;
         self.next_tx += 1;
         let share = self.r.chance(1, 5) && tx > 1;
-        let u = Utxo { tx: if share { tx - 1 } else { tx }, ix: if share { 100 + tx } else { *self.r.pick(&[0u32, 0, 1, 2, 23, 24, 255, 256]) }, addr, coin, empty_ma: assets.is_empty() && self.r.chance(1, 12), assets, datum, script_ref };
+        let u = Utxo { tx: if share { tx - 1 } else { tx }, ix: if share { 100 + tx } else { *self.r.pick(&[0u32, 0, 1, 2, 23, 24, 255, 256]) }, addr, coin, empty_ma: if assets.is_empty() { self.r.chance(1, 12) } else { self.r.chance(1, 40) }, assets, datum, script_ref };
         self.w.utxos.push(u);
         self.w.utxos.len() - 1
     }
